@@ -196,9 +196,20 @@ WORDS = ["alpha", "beta", "gamma", "delta", "eps", "zeta", "eta", "theta",
 SCALARS = [0, 1, 2, 10, -1, 9, 2.5, -0.5, True, False, None, 100]
 
 
-def gen_collections(ch):
-    mixed = ch.bool(0.3)
+TIE_WORDS = ["beta", "zeta", "iota", "lime", "pear", "plum", "kiwi", "date",
+             "a bc", "it's", "Zeta", "_ab_", "1000", "né é"]
+
+
+def gen_collections(ch, ties=False):
+    mixed = ch.bool(0.3) and not ties
     def elems(n):
+        if ties:
+            # many elements that tie under length-based keys
+            return ch.sample(TIE_WORDS, min(n + 2, len(TIE_WORDS))) + \
+                ch.sample(["alpha", "eps", "z", ""], ch.int(0, 2))
+        return elems_plain(n)
+
+    def elems_plain(n):
         out = []
         tries = 0
         while len(out) < n:
@@ -382,11 +393,11 @@ def part_paths(part, n, exhaustive_paths, lib=None):
     if lib is not None:
         lp = lib_paths()
         PATHS = [p for i, p in enumerate(lp) if i % lib[1] == lib[0]]
-        n = len(PATHS) * (3 if part.tier == "thorough" else 1)
+        n = len(PATHS) * (10 if part.tier == "thorough" else 3)
 
     def body(tape):
         ch = TapeChooser(tape)
-        coll = gen_collections(ch)
+        coll = gen_collections(ch, ties=lib is not None and ch.bool(0.7))
         if exhaustive_paths:
             idx = len(collected) % len(PATHS)
         else:
